@@ -19,6 +19,7 @@ import (
 	"bytes"
 	"context"
 	"encoding/json"
+	"errors"
 	"fmt"
 	"io"
 	"sort"
@@ -31,6 +32,7 @@ import (
 	"github.com/aws/aws-sdk-go-v2/aws"
 	awsconfig "github.com/aws/aws-sdk-go-v2/config"
 	"github.com/aws/aws-sdk-go-v2/service/s3"
+	"github.com/aws/aws-sdk-go-v2/service/s3/types"
 	clientv3 "go.etcd.io/etcd/client/v3"
 )
 
@@ -164,7 +166,14 @@ func (l *s3Lister) listCompleted(ctx context.Context, filter map[string]map[int3
 		}
 
 		ok, err := l.hasFooterMagic(ctx, entry.kfsKey)
-		if err != nil || !ok {
+		if err != nil {
+			var gone *types.NoSuchKey
+			if errors.As(err, &gone) {
+				continue
+			}
+			return nil, fmt.Errorf("probe segment footer %s: %w", entry.kfsKey, err)
+		}
+		if !ok {
 			continue
 		}
 
